@@ -591,7 +591,13 @@ def _target_name(t):
     raise TranslateError("assignment target")
 
 
-def translate_function(fn, lean_name, arg_types, ret, partial=False, attrs=None, local_types=None, known=None):
+def translate_function(fn, lean_name, arg_types, ret, partial=False, attrs=None, local_types=None, known=None, **more):
+    # --- T3: specs with a "t3" option (several opaque types, methods / callables / operators as parameters, recursion on
+    # lists) are rendered by harness/translate_t3.py (a subclass of T)
+    if more:
+        from . import translate_t3
+        return translate_t3.translate_function(fn, lean_name, arg_types, ret, partial, attrs, local_types, known, **more)
+    # --- T3 end
     fn = getattr(fn, "__wrapped__", fn)  # functools.lru_cache & co.
     src = textwrap.dedent(inspect.getsource(fn))
     node = ast.parse(src).body[0]
